@@ -93,6 +93,10 @@ Record ipcp_cfg := mkicfg {
   ic_dns2 : option bytes;         (* i.local.SecondaryDNS *)
   ic_local : option bytes;        (* i.local.Address (only BuildConfReq reads it) *)
   ic_rejected : list N;           (* i.rejected: option types the subscriber has rejected *)
+  ic_stage : bool;                (* NOT Go state: a choice the property leaves to the implementation — WHEN the values
+                                     the subscriber proposes are recorded in peer.*: false = option by option as
+                                     they are found acceptable (/repo HEAD), true = only from a request that is
+                                     acceptable as a whole (the one answered with a Configure-Ack) *)
   ic_refuse : bytes -> bool       (* NOT Go state: a choice the property leaves to the implementation.  With
                                      nothing usable assigned the property does not oblige IPCP to accept a
                                      proposal; [ic_refuse a] says that the implementation refuses the non-zero
@@ -108,12 +112,18 @@ Definition ipeer0 : ipcp_peer := mkipeer None None None.
 (* SetPeerAddress / SetDNS store addr.To4(); DefaultIPCPConfig leaves the DNS fields at net.IPv4zero *)
 Definition mk_ipcp_cfg (assigned : option bytes) (dns : option (option bytes * option bytes)) : ipcp_cfg :=
   match dns with
-  | Some (d1, d2) => mkicfg (to4o assigned) (to4o d1) (to4o d2) (Some ipv4zero) [] (fun _ => false)
-  | None => mkicfg (to4o assigned) (Some ipv4zero) (Some ipv4zero) (Some ipv4zero) [] (fun _ => false)
+  | Some (d1, d2) => mkicfg (to4o assigned) (to4o d1) (to4o d2) (Some ipv4zero) [] false (fun _ => false)
+  | None => mkicfg (to4o assigned) (Some ipv4zero) (Some ipv4zero) (Some ipv4zero) [] false (fun _ => false)
   end.
 
 Definition with_refuse (c : ipcp_cfg) (f : bytes -> bool) : ipcp_cfg :=
-  mkicfg (ic_assigned c) (ic_dns1 c) (ic_dns2 c) (ic_local c) (ic_rejected c) f.
+  mkicfg (ic_assigned c) (ic_dns1 c) (ic_dns2 c) (ic_local c) (ic_rejected c) (ic_stage c) f.
+Definition with_stage (c : ipcp_cfg) (b : bool) : ipcp_cfg :=
+  mkicfg (ic_assigned c) (ic_dns1 c) (ic_dns2 c) (ic_local c) (ic_rejected c) b (ic_refuse c).
+(* both implementation choices at once: (which proposals are refused with nothing assigned, staging) *)
+Definition choice := ((bytes -> bool) * bool)%type.
+Definition with_choice (c : ipcp_cfg) (ch : choice) : ipcp_cfg := with_stage (with_refuse c (fst ch)) (snd ch).
+Definition head_choice : choice := (fun _ => false, false).
 
 Definition dns_usable (x : option bytes) : bool :=          (* x != nil && !x.Equal(net.IPv4zero) *)
   match x with Some d => negb (ip_equal d ipv4zero) | None => false end.
@@ -145,6 +155,12 @@ Definition ipcp_opt (c : ipcp_cfg) (st : res * ipcp_peer) (o : opt) : res * ipcp
 
 Definition ipcp_req (c : ipcp_cfg) (p : ipcp_peer) (opts : list opt) : res * ipcp_peer :=
   fold_left (ipcp_opt c) opts (res0, p).
+
+(* ProcessConfReq with the implementation's choice of when peer.* is written *)
+Definition is_good0 (r : res) : bool := match r_nak r, r_rej r with [], [] => true | _, _ => false end.
+Definition ipcp_req_c (c : ipcp_cfg) (p : ipcp_peer) (opts : list opt) : res * ipcp_peer :=
+  let (r, p') := ipcp_req c p opts in
+  (r, if ic_stage c && negb (is_good0 r) then p else p').
 
 (* ---- LCP ---- *)
 Definition num16 (d : bytes) : N := match d with a :: b :: _ => be16 a b | _ => 0%N end.
@@ -293,7 +309,7 @@ Definition replies (st : N) : bool :=
 Definition ipcp_input (c : ipcp_cfg) (st : N) (p : ipcp_peer) (id : N) (wire : bytes)
   : list act * N * ipcp_peer :=
   match parse_wire wire with
-  | Ok opts => let (r, p') := ipcp_req c p opts in
+  | Ok opts => let (r, p') := ipcp_req_c c p opts in
                let (a, st') := rcr_event st id r in (a, st', p')
   | _ => ([], st, p)
   end.
@@ -317,16 +333,16 @@ Definition ipv6cp_input (local : bytes) (st : N) (p : bytes) (oracle : list byte
    the assigned peer address is not touched *)
 Definition ipcp_learn_opt (c : ipcp_cfg) (o : opt) : ipcp_cfg :=
   if Nat.eqb (length (o_data o)) 4 then
-    if N.eqb (o_type o) 3 then mkicfg (ic_assigned c) (ic_dns1 c) (ic_dns2 c) (Some (o_data o)) (ic_rejected c) (ic_refuse c)
-    else if N.eqb (o_type o) 129 then mkicfg (ic_assigned c) (Some (o_data o)) (ic_dns2 c) (ic_local c) (ic_rejected c) (ic_refuse c)
-    else if N.eqb (o_type o) 131 then mkicfg (ic_assigned c) (ic_dns1 c) (Some (o_data o)) (ic_local c) (ic_rejected c) (ic_refuse c)
+    if N.eqb (o_type o) 3 then mkicfg (ic_assigned c) (ic_dns1 c) (ic_dns2 c) (Some (o_data o)) (ic_rejected c) (ic_stage c) (ic_refuse c)
+    else if N.eqb (o_type o) 129 then mkicfg (ic_assigned c) (Some (o_data o)) (ic_dns2 c) (ic_local c) (ic_rejected c) (ic_stage c) (ic_refuse c)
+    else if N.eqb (o_type o) 131 then mkicfg (ic_assigned c) (ic_dns1 c) (Some (o_data o)) (ic_local c) (ic_rejected c) (ic_stage c) (ic_refuse c)
     else c
   else c.
 Definition ipcp_learn (c : ipcp_cfg) (os : list opt) : ipcp_cfg := fold_left ipcp_learn_opt os c.
 
 (* ProcessConfRej: remember the rejected option types *)
 Definition ipcp_rejected (c : ipcp_cfg) (os : list opt) : ipcp_cfg :=
-  mkicfg (ic_assigned c) (ic_dns1 c) (ic_dns2 c) (ic_local c) (map o_type os ++ ic_rejected c) (ic_refuse c).
+  mkicfg (ic_assigned c) (ic_dns1 c) (ic_dns2 c) (ic_local c) (map o_type os ++ ic_rejected c) (ic_stage c) (ic_refuse c).
 
 (* BuildConfReq *)
 Definition build_confreq (c : ipcp_cfg) : list opt :=
@@ -341,7 +357,7 @@ Definition build_confreq (c : ipcp_cfg) : list opt :=
 (* SetPeerAddress.  Repaired: the address negotiated under the previous assignment is forgotten, so that a
    stale peer.Address can never be adopted; before 95b0af2 (f_keep): peer.Address survives. *)
 Definition ipcp_set_peer (fl : flags) (c : ipcp_cfg) (p : ipcp_peer) (a : option bytes) : ipcp_cfg * ipcp_peer :=
-  (mkicfg (to4o a) (ic_dns1 c) (ic_dns2 c) (ic_local c) (ic_rejected c) (ic_refuse c),
+  (mkicfg (to4o a) (ic_dns1 c) (ic_dns2 c) (ic_local c) (ic_rejected c) (ic_stage c) (ic_refuse c),
    if f_keep fl then p else mkipeer None (pp_dns1 p) (pp_dns2 p)).
 
 Record iobj := mkiobj { io_cfg : ipcp_cfg; io_peer : ipcp_peer }.
@@ -357,12 +373,12 @@ Inductive iop :=
 Definition iobj_step (fl : flags) (s : iobj) (o : iop) : iobj * option res :=
   let c := io_cfg s in
   match o with
-  | IReq os => let (r, p') := ipcp_req c (io_peer s) os in (mkiobj c p', Some r)
+  | IReq os => let (r, p') := ipcp_req_c c (io_peer s) os in (mkiobj c p', Some r)
   | IAck os | INak os => (mkiobj (ipcp_learn c os) (io_peer s), None)
   | IRej os => (mkiobj (ipcp_rejected c os) (io_peer s), None)
   | ISetPeer a => let (c', p') := ipcp_set_peer fl c (io_peer s) a in (mkiobj c' p', None)
-  | ISetDNS d1 d2 => (mkiobj (mkicfg (ic_assigned c) (to4o d1) (to4o d2) (ic_local c) (ic_rejected c) (ic_refuse c)) (io_peer s), None)
-  | ISetAddr a => (mkiobj (mkicfg (ic_assigned c) (ic_dns1 c) (ic_dns2 c) (to4o a) (ic_rejected c) (ic_refuse c)) (io_peer s), None)
+  | ISetDNS d1 d2 => (mkiobj (mkicfg (ic_assigned c) (to4o d1) (to4o d2) (ic_local c) (ic_rejected c) (ic_stage c) (ic_refuse c)) (io_peer s), None)
+  | ISetAddr a => (mkiobj (mkicfg (ic_assigned c) (ic_dns1 c) (ic_dns2 c) (to4o a) (ic_rejected c) (ic_stage c) (ic_refuse c)) (io_peer s), None)
   end.
 
 (* the trace of a history: for every ProcessConfReq the configuration in force, the request, the result *)
@@ -535,7 +551,7 @@ Definition start_ncp (fl : flags) (ow : owner) (c : ipcp_cfg) (st : N) (p : ipcp
                     | _, _ => ipcp_set_peer fl c p addr1
                     end in
     let c2 := match ow with
-              | PPPoE => mkicfg (ic_assigned c1) (to4 (fst dns)) (to4 (snd dns)) (ic_local c1) (ic_rejected c1) (ic_refuse c1)
+              | PPPoE => mkicfg (ic_assigned c1) (to4 (fst dns)) (to4 (snd dns)) (ic_local c1) (ic_rejected c1) (ic_stage c1) (ic_refuse c1)
               | _ => c1
               end in
     let (a, st') := up_open st in
@@ -549,27 +565,27 @@ Definition dns_of (aaa_dns : option bytes * option bytes) : bytes * bytes :=
    match snd aaa_dns with Some d => d | None => dns_default2 end).
 
 Definition sess_start_dns (fl : flags) (ow : owner) (aaa : option bytes) (aaa_dns : option bytes * option bytes)
-           (orc : oracle) (refuse : bytes -> bool) : sess :=
-  fst (start_ncp fl ow (with_refuse (mk_ipcp_cfg None None) refuse) 0 ipeer0 (extract_ip fl aaa) false []
+           (orc : oracle) (refuse : choice) : sess :=
+  fst (start_ncp fl ow (with_choice (mk_ipcp_cfg None None) refuse) 0 ipeer0 (extract_ip fl aaa) false []
                  (dns_of aaa_dns) orc).
 Definition sess_start (fl : flags) (ow : owner) (aaa : option bytes) (orc : oracle) : sess :=
-  sess_start_dns fl ow aaa (None, None) orc (fun _ => false).
+  sess_start_dns fl ow aaa (None, None) orc head_choice.
 
 (* installInMemoryState (internal/pppoe/component.go) for a checkpointed session in PhaseOpen with an IPv4
    address: initPPP (fresh IPCP object), FSM.Restore (straight to Opened, nothing sent), ipcpOpen = true.
    Repaired: the checkpointed address is installed as the assignment first (SetPeerAddress, SetDNS). *)
-Definition sess_restore_f (fl : flags) (addr : bytes) (dns1 dns2 : option bytes) (refuse : bytes -> bool) : sess :=
+Definition sess_restore_f (fl : flags) (addr : bytes) (dns1 dns2 : option bytes) (refuse : choice) : sess :=
   if f_restore fl then
     (* before 8205ad2: nothing assigned; guard "address != nil" *)
-    mksess PPPoE (with_refuse (mk_ipcp_cfg None None) refuse) 9 ipeer0 (Some addr) true [] (dns_default1, dns_default2)
+    mksess PPPoE (with_choice (mk_ipcp_cfg None None) refuse) 9 ipeer0 (Some addr) true [] (dns_default1, dns_default2)
   else if f_rguard fl || usable (Some addr) then
     (* 8205ad2: SetPeerAddress, SetDNS, Restore.  f_rguard: the guard is still "address != nil" *)
-    mksess PPPoE (with_refuse (mk_ipcp_cfg (Some addr) (Some (dns1, dns2))) refuse) 9 ipeer0 (Some addr) true [] (dns_default1, dns_default2)
+    mksess PPPoE (with_choice (mk_ipcp_cfg (Some addr) (Some (dns1, dns2))) refuse) 9 ipeer0 (Some addr) true [] (dns_default1, dns_default2)
   else
     (* repaired guard: an unusable checkpointed address does not restore IPCP and is dropped *)
-    mksess PPPoE (with_refuse (mk_ipcp_cfg None None) refuse) 0 ipeer0 None false [] (dns_default1, dns_default2).
+    mksess PPPoE (with_choice (mk_ipcp_cfg None None) refuse) 0 ipeer0 None false [] (dns_default1, dns_default2).
 Definition sess_restore (fl : flags) (addr : bytes) (dns1 dns2 : option bytes) : sess :=
-  sess_restore_f fl addr dns1 dns2 (fun _ => false).
+  sess_restore_f fl addr dns1 dns2 head_choice.
 
 (* callbacks LayerUp = onIPCPUp, LayerDown = onIPCPDown *)
 Definition on_act (fl : flags) (p : ipcp_peer) (st : option bytes * bool) (a : act) : option bytes * bool :=
